@@ -47,7 +47,12 @@ fn set_field(v: &mut V, name: &str, val: &V) -> bool {
 /// late biased fields: a value below the bias makes the build fail after most of the body
 const LATE_FAIL: &[(u16, &str)] = &[(1021, "b_t_m"), (1022, "b_t_m"), (1021, "a_s_m"), (1022, "a_s_m"), (1025, "sno_ppm"), (1027, "sil_ppm"), (1300, "coordinate_epoch_year"), (1301, "ref_epoch_t0_mjd"), (1020, "glo_m_n4_year")];
 
-fn make_pool(rng: &mut Rng, ctx: &mut Ctx) -> Vec<Entry> {
+/// (A, refused variant of A', A'): A' is A with an early field changed, the refused variant additionally has a late
+/// field out of range -- the caller corrects that field and tries again
+type Retry = (usize, usize, usize);
+
+fn make_pool(rng: &mut Rng, ctx: &mut Ctx) -> (Vec<Entry>, Vec<Retry>) {
+    let mut retries: Vec<Retry> = Vec::new();
     let mut pool: Vec<Entry> = Vec::new();
     let mut tpl = Templates::default();
     let mut add = |pool: &mut Vec<Entry>, m: Message, label: &'static str, ctx: &mut Ctx| {
@@ -122,6 +127,78 @@ fn make_pool(rng: &mut Rng, ctx: &mut Ctx) -> Vec<Entry> {
             }
         }
     }
+    // (h) the longest frames a message type can have: every list-bearing message at its capacity (random and all-ones
+    // elements), as built by the reference
+    for l in crate::oracle::layout::LISTS.iter() {
+        for fill in [1usize, 2] {
+            let total_bits = l.elems_bit + l.capacity * l.elem_bits;
+            let nbytes = (total_bits + 7) / 8;
+            if nbytes > 1023 {
+                continue;
+            }
+            let mut p = if fill == 1 { vec![0xFFu8; nbytes] } else { rng.bytes(nbytes) };
+            bits::write(&mut p, 0, 12, l.number as u128);
+            bits::write(&mut p, l.count_bit, l.count_width, l.capacity as u128);
+            if let Ok(Some(m)) = crate::codec::decode(&crc::frame(&p)) {
+                if m.number() == Some(l.number) {
+                    add(&mut pool, m, "pool_list_at_capacity", ctx);
+                }
+            }
+        }
+    }
+    // (i) correct-and-retry triples
+    let typed: Vec<usize> = (0..pool.len()).filter(|&i| pool[i].label == "pool_valid_typed" && pool[i].fresh.is_ok()).collect();
+    for &a in typed.iter() {
+        let v = match vtree::to_v(&pool[a].msg) {
+            Ok(v) => v,
+            Err(_) => continue,
+        };
+        let total = mutate::count_numeric(&mut v.clone());
+        if total < 4 {
+            continue;
+        }
+        // A': one of the first numeric leaves nudged, still accepted and encoding differently
+        let mut a2: Option<(V, Message)> = None;
+        for e in 0..total.min(12) {
+            let mut mv = v.clone();
+            mutate::nudge_leaf(&mut mv, e);
+            if let Ok(Ok(m)) = guard(|| vtree::from_v::<Message>(&mv)) {
+                if let Ok(Ok(f)) = build(&m) {
+                    if Some(&f) != pool[a].fresh.as_ref().ok() && f.len() == pool[a].fresh.as_ref().map(|x| x.len()).unwrap_or(0) {
+                        a2 = Some((mv, m));
+                        break;
+                    }
+                }
+            }
+        }
+        let (v2, m2) = match a2 {
+            Some(x) => x,
+            None => continue,
+        };
+        // refused variant: a late leaf of A' out of range
+        let mut refused: Option<Message> = None;
+        'outer: for back in 0..total.min(16) {
+            for high in [true, false] {
+                let mut mv = v2.clone();
+                mutate::extreme_leaf(&mut mv, total - 1 - back, high);
+                if let Ok(Ok(m)) = guard(|| vtree::from_v::<Message>(&mv)) {
+                    if matches!(build(&m), Ok(Err(_))) {
+                        refused = Some(m);
+                        break 'outer;
+                    }
+                }
+            }
+        }
+        if let Some(r) = refused {
+            add(&mut pool, r, "pool_refused_variant_for_retry", ctx);
+            let ri = pool.len() - 1;
+            add(&mut pool, m2, "pool_corrected_retry", ctx);
+            let ci = pool.len() - 1;
+            if pool[ri].label == "pool_refused_variant_for_retry" && pool[ci].label == "pool_corrected_retry" && ri != ci {
+                retries.push((a, ri, ci));
+            }
+        }
+    }
     // (g) length ladder: a byte-aligned text message for every body length 9..=264 whose last byte ends in 1 bits,
     // so that a predecessor of every length (not just the lengths the other entries happen to have) is available
     for n in 0..=255usize {
@@ -133,7 +210,7 @@ fn make_pool(rng: &mut Rng, ctx: &mut Ctx) -> Vec<Entry> {
     add(&mut pool, Message::Empty, "pool_no_wire_form", ctx);
     add(&mut pool, Message::Corrupt, "pool_no_wire_form", ctx);
     add(&mut pool, Message::MsgNotSupported(rtcm_rs::msg::message::MsgNotSupportedT { message_number: 4000 }), "pool_no_wire_form", ctx);
-    pool
+    (pool, retries)
 }
 
 /// a 1029 message whose text is `n` bytes long: body = 9 + n bytes, byte aligned, last byte 0x7F or 0xBF
@@ -333,7 +410,7 @@ pub fn run(p: &Params) -> Outcome {
     let per = n / p.workers as u64;
     let mut total = par::run(p.workers, move |w, _nw, ctx| {
         let mut rng = Rng::derive(seed, "C12", w as u64);
-        let pool = make_pool(&mut rng, ctx);
+        let (pool, retries) = make_pool(&mut rng, ctx);
         if pool.len() < 50 {
             ctx.inconclusive(format!("message pool too small: {}", pool.len()));
             return;
@@ -344,7 +421,14 @@ pub fn run(p: &Params) -> Outcome {
         let mut soak = MessageBuilder::new();
         let mut soak_calls: u64 = 0;
         // every target after a successful build of every body length 9..=264 (the ladder), alone and after a failure
-        let ladder: Vec<usize> = (0..pool.len()).filter(|&i| pool[i].label == "pool_length_ladder_1029" && pool[i].fresh.is_ok()).collect();
+        let ladder: Vec<usize> = (0..pool.len()).filter(|&i| (pool[i].label == "pool_length_ladder_1029" || pool[i].label == "pool_list_at_capacity") && pool[i].fresh.is_ok()).collect();
+        // build A; a changed message is refused part-way; the caller corrects the offending field and tries again
+        for &(a, r, c) in retries.iter() {
+            ctx.count("correct_and_retry_histories");
+            run_history(ctx, &pool, &[a, r], c);
+            run_history(ctx, &pool, &[a, r, r], c);
+            run_history(ctx, &pool, &[c, r], a);
+        }
         ctx.max("length_ladder_entries", ladder.len() as f64);
         for target in (0..pool.len()).filter(|t| t % _nw == w) {
             if ctx.saturated() {
@@ -394,14 +478,14 @@ pub fn run(p: &Params) -> Outcome {
     });
     total.max("calls_on_the_longest_lived_builder", 0.0);
     total.max("length_ladder_entries", 0.0);
-    for k in ["ladder_histories", "failure_then_target_histories", "pool_late_failing_biased_field", "pool_decoded_from_all_ones_max_payload", "histories_where_stale_bits_would_be_visible", "histories_with_failed_predecessor", "pool_entries_that_fail_to_build"] {
+    for k in ["correct_and_retry_histories", "pool_list_at_capacity", "ladder_histories", "failure_then_target_histories", "pool_late_failing_biased_field", "pool_decoded_from_all_ones_max_payload", "histories_where_stale_bits_would_be_visible", "histories_with_failed_predecessor", "pool_entries_that_fail_to_build"] {
         if total.get(k) == 0 {
             total.inconclusive(format!("{} never observed", k));
         }
     }
     Outcome {
         ctx: total,
-        rule: "history = 1..50 build calls on one MessageBuilder drawn from a pool (valid messages of every type, messages decoded from all-ones maximum-length payloads, hostile decodes, mutants that fail part-way, late-failing biased fields, no-wire-form variants, a 1029 text message for every body length 9..=264) followed by a target; additionally every pool entry as target right after every ladder entry and right after every failing entry; oracle: bytes and Ok/Err class equal a fresh builder's; non-trivial = at least one longer-than-target or failed predecessor; distinct by (history, target) hash".into(),
+        rule: "history = 1..50 build calls on one MessageBuilder drawn from a pool (valid messages of every type, messages decoded from all-ones maximum-length payloads, hostile decodes, mutants that fail part-way, late-failing biased fields, no-wire-form variants, a 1029 text message for every body length 9..=264, every list-bearing message at capacity, refused variants with their corrected retries) followed by a target; correct-and-retry triples (A, refused variant of A', A'); additionally every pool entry as target right after every ladder entry and right after every failing entry; oracle: bytes and Ok/Err class equal a fresh builder's; non-trivial = at least one longer-than-target or failed predecessor; distinct by (history, target) hash".into(),
         exhaustive: false,
         extra: json!({}),
     }
